@@ -207,6 +207,129 @@ theorem execS_assign (fuel : Nat) (n : String) (e : X.Expr) (σ : X.St) (hp : pu
         simp only [List.length_append, ← Nat.add_assoc]
         exact st1.trans st2
 
+/-- `a[i] := e` with call-free `i` and `e`: the element's address is kept in a temporary while
+    the value is computed. -/
+theorem execS_assignSub (fuel : Nat) (n : String) (ix e : X.Expr) (σ : X.St) (hpi : pureE ix = true) (hpe : pureE e = true) :
+    ExecS K exitJ (.assignSub n (optExpr (annotate K.ρ ix)) (optExpr (annotate K.ρ e))) σ
+      (X.exec fuel K.xc (.assignSub n ix e) σ) := by
+  intro gs code gs' i a b mem hg hat hr hsz hnl hci
+  cases fuel with
+  | zero => unfold X.exec; trivial
+  | succ f =>
+    cases ht : X.tick K.xc σ with
+    | none => unfold X.exec; rw [ht]; trivial
+    | some st =>
+      have hs := tick_same _ _ _ ht
+      cases hx : X.exec (f + 1) K.xc (.assignSub n ix e) σ with
+      | undef w => trivial
+      | exit c s =>
+        exfalso
+        rcases exec_assignSub_exit f K.xc n ix e σ st ht c s hx with ⟨c', s', he⟩ | ⟨iv, s1, c', s', _, he⟩
+        · exact asInt_pure_no_exit K.xc _ f ix st c' s' hpi he
+        · exact asInt_pure_no_exit K.xc _ f e s1 c' s' hpe he
+      | ok fl σ'' =>
+        obtain ⟨iv, s1, w, s2, r, hev1, hev2, harr, hset, hfl⟩ := exec_assignSub f K.xc n ix e σ st ht fl σ'' hx
+        subst hfl
+        have hs1 := eval_pure K.xc _ _ _ _ _ hpi hev1
+        have hs2 := eval_pure K.xc _ _ _ _ _ hpe hev2
+        obtain ⟨ci, gs1, sym, ce, gs2, h1, hl, h3, hgs', hcode⟩ := genStmt_assignSub_inv _ _ _ _ _ _ _ hg
+        subst hcode; subst hgs'
+        obtain ⟨e1o, e1s, _, e1c⟩ := genExpr_eff _ _ _ _ _ _ h1
+        obtain ⟨e3o, e3s, _, e3c⟩ := genExpr_eff _ _ _ _ _ _ h3
+        simp only at e3o e3s e3c hsz
+        have hci2 : ConstsIn K gs2 := hci
+        have hci1 : ConstsIn K gs1 := fun x hx => hci2 x (e3c x hx)
+        have hoff : gs1.offset < K.S := by omega
+        simp only [low_append, List.append_assoc] at hat ⊢
+        have hl3 : K.low [iADD, iLDBM SP_OFFSET, IDir.fb FbKind.stai K.ctx.frame (-(gs1.offset : Int))]
+            = [.opr 1, .imm 0x1 1, .imm 0x8 ((K.S : Int) - 1 + -(gs1.offset : Int))] := rfl
+        have hl5 : K.low [iLDBM SP_OFFSET, IDir.fb FbKind.ldbi K.ctx.frame (-(gs1.offset : Int)), iSTAI 0]
+            = [.imm 0x1 1, .imm 0x7 ((K.S : Int) - 1 + -(gs1.offset : Int)), .imm 0x8 0] := rfl
+        rw [hl3, hl5] at hat ⊢
+        -- the index into areg
+        have hA := expr_pure_correct K wf.toWF f ix st iv s1 hpi hev1
+        obtain ⟨b1, mem1, st1, rep1, _⟩ := hA gs ci gs1 i a b mem h1 hat.left (hr.same hs) (by omega) hnl hci1
+        rw [hs.2.2.2.1] at st1
+        -- the array
+        have rep1' : Rep K s2 mem1 := (rep1.same hs1).same hs2
+        obtain ⟨id, ad, hid, hloc, hlt, hptr⟩ := rep1'.aptr n r (arrayOf_ok _ _ _ _ harr)
+        subst hid
+        obtain ⟨cells, hc, h0, h1', hσ''⟩ := arrSet_glob s2 σ'' id iv w hset
+        obtain ⟨hcsz, _⟩ := rep1'.acells id cells hc
+        have hidx : iv.toInt.toNat < K.asize id := by omega
+        obtain ⟨hahi, hamw⟩ := wf.arr_hi id (by omega)
+        have hsum : iv + BitVec.ofNat 32 (K.abase id) = BitVec.ofNat 32 (K.abase id + iv.toInt.toNat) := by
+          rw [BitVec.add_comm]
+          conv => lhs; rw [nonneg_ofNat iv h0]
+          rw [BitVec.ofNat_add]
+        -- its pointer into breg, the address of the element into areg
+        have s2' := exec_genVar K wf.toWF .B n sym st (i + (K.low ci).length) iv b1 mem1 σ.io ad hl hat.right.left rep1 hloc hlt
+        simp only at s2'
+        have hat3 := hat.right.right.left
+        have sA := Step.add (env := K.env) (cfg (i + (K.low ci).length + (K.low (genVar .B sym)).length) iv (mem1.read ad) mem1) σ.io
+          (by have := hat3.get 0 _ rfl; simpa [Nat.add_assoc] using this)
+        have sB := Step.ldbm (env := K.env) (cfg (i + (K.low ci).length + (K.low (genVar .B sym)).length + 1) (iv + mem1.read ad) (mem1.read ad) mem1)
+          σ.io 1 _ (by have := hat3.get 1 _ rfl; simpa [Nat.add_assoc] using this) (ld_one mem1)
+        have hslot : (K.slot gs1.offset : Int) = (K.sp : Int) + (K.S : Int) - 1 + (-(gs1.offset : Int)) := by
+          unfold PCtx.slot; omega
+        have hadr := slot_addr K.sp K.S (-(gs1.offset : Int)) (K.slot gs1.offset) hslot
+        obtain ⟨hsl1, hsl2⟩ := wf.slot_ok gs1.offset hoff
+        have hst : IAm.store K.env mem1 (mem1.read 1 + IAm.W ((K.S : Int) - 1 + -(gs1.offset : Int))) (iv + mem1.read ad)
+            = some (mem1.write (K.slot gs1.offset) (iv + mem1.read ad)) := by
+          rw [rep1.sp, hadr]; exact store_ofNat _ _ _ _ hsl1 hsl2
+        have hne1 : (mem1.read 1 + IAm.W ((K.S : Int) - 1 + -(gs1.offset : Int))).toNat ≠ 1 := by
+          rw [rep1.sp, hadr]
+          exact ofNat_toNat_ne_one _ (by have := wf.sp_ge; unfold PCtx.slot; omega) hsl1
+        have sC := Step.stai (env := K.env) (cfg (i + (K.low ci).length + (K.low (genVar .B sym)).length + 1 + 1) (iv + mem1.read ad) (mem1.read 1) mem1)
+          σ.io _ _ (by have := hat3.get 2 _ rfl; simpa [Nat.add_assoc] using this) hst hne1
+        have frm2 : Frm K gs1.offset (gs1.offset + 1) mem1 (mem1.write (K.slot gs1.offset) (iv + mem1.read ad)) := by
+          intro x hx
+          rw [Mem.read_write_other]
+          exact fun e => hx gs1.offset (Nat.le_refl _) (by omega) e.symm
+        have rep2 := rep1.frame wf.toWF frm2 (by omega) (by omega)
+        -- the value into areg
+        have hE := (expr_pure_correct K wf.toWF f e s1 w s2 hpe hev2).same hs1.symm
+        obtain ⟨b3, mem3, st3, rep3, frm3⟩ := hE _ ce gs2 (i + (K.low ci).length + (K.low (genVar .B sym)).length + 1 + 1 + 1)
+          (iv + mem1.read ad) (mem1.read 1) (mem1.write (K.slot gs1.offset) (iv + mem1.read ad)) h3
+          (by have := hat.right.right.right.left; simpa [Nat.add_assoc] using this) rep2 hsz (by simp only; omega) hci2
+        rw [hs.2.2.2.1] at st3
+        simp only [hiB_true] at frm3
+        have hkeep : mem3.read (K.slot gs1.offset) = iv + mem1.read ad := by
+          rw [frm3 _ (slot_ge K gs1.offset hoff) (wf.toWF.not_inArr _ (by unfold PCtx.slot; omega)) (fun k h1 h2 e => by
+            have := slot_inj K gs1.offset k hoff (by omega) e; omega)]
+          exact Mem.read_write_same _ _ _ hsl1
+        -- the address back into breg, the store
+        have hat5 := hat.right.right.right.right
+        simp only [List.length_cons, List.length_nil] at hat5
+        have sD := Step.ldbm (env := K.env) (cfg (i + (K.low ci).length + (K.low (genVar .B sym)).length + 1 + 1 + 1 + (K.low ce).length) w b3 mem3)
+          σ.io 1 _ (by have := hat5.get 0 _ rfl; simpa [Nat.add_assoc] using this) (ld_one mem3)
+        have hld : Isa.ld mem3 (mem3.read 1 + IAm.W ((K.S : Int) - 1 + -(gs1.offset : Int))) = some (iv + mem1.read ad) := by
+          rw [rep3.sp, hadr, ld_ofNat _ _ hsl1, hkeep]
+        have sE := Step.ldbi (env := K.env) (cfg (i + (K.low ci).length + (K.low (genVar .B sym)).length + 1 + 1 + 1 + (K.low ce).length + 1) w (mem3.read 1) mem3)
+          σ.io _ _ (by have := hat5.get 1 _ rfl; simpa [Nat.add_assoc] using this) hld
+        have hW0 : IAm.W 0 = (0#32 : Word) := by decide
+        have hea : iv + mem1.read ad + IAm.W 0 = BitVec.ofNat 32 (K.abase id + iv.toInt.toNat) := by
+          rw [hW0, BitVec.add_zero, hptr, hsum]
+        have hst2 : IAm.store K.env mem3 (iv + mem1.read ad + IAm.W 0) w
+            = some (mem3.write (K.abase id + iv.toInt.toNat) w) := by
+          rw [hea]; exact store_ofNat _ _ _ _ (by omega) (wf.arr_code id _ hidx)
+        have hne2 : (iv + mem1.read ad + IAm.W 0).toNat ≠ 1 := by
+          rw [hea]; exact ofNat_toNat_ne_one _ (by have := wf.sp_ge; omega) (by omega)
+        have sF := Step.stai (env := K.env) (cfg (i + (K.low ci).length + (K.low (genVar .B sym)).length + 1 + 1 + 1 + (K.low ce).length + 1 + 1) w (iv + mem1.read ad) mem3)
+          σ.io 0 _ (by have := hat5.get 2 _ rfl; simpa [Nat.add_assoc] using this) hst2 hne2
+        have rep3' : Rep K s2 mem3 := (rep3.same hs1).same hs2
+        refine ⟨w, iv + mem1.read ad, mem3.write (K.abase id + iv.toInt.toNat) w, ?_, ?_⟩
+        · have hio : σ''.io = σ.io := by rw [hσ'']; show s2.io = σ.io; rw [hs2.2.2.2.1, hs1.2.2.2.1, hs.2.2.2.1]
+          rw [hio]
+          have hlen : i + ((K.low ci).length + ((K.low (genVar .B sym)).length + (3 + ((K.low ce).length + 3))))
+              = i + (K.low ci).length + (K.low (genVar .B sym)).length + 1 + 1 + 1 + (K.low ce).length + 1 + 1 + 1 := by omega
+          simp only [List.length_append, List.length_cons, List.length_nil]
+          rw [hlen]
+          exact st1.trans (s2'.trans (Steps.step _ _ _ _ _ _ sA (Steps.step _ _ _ _ _ _ sB (Steps.step _ _ _ _ _ _ sC
+            (st3.trans (Steps.step _ _ _ _ _ _ sD (Steps.step _ _ _ _ _ _ sE (Steps.one sF))))))))
+        · rw [hσ'']
+          exact Rep.assignSub wf.toWF rep3' hc h0 h1'
+
 /-- `skip` with the machine already where it should end. -/
 theorem out_skip (fuel : Nat) (s : X.St) (j : Nat) (a b : Word) (mem : Mem) (hr : Rep K s mem) :
     Out K exitJ (cfg j a b mem) s.io (X.exec fuel K.xc .skip s) j := by
